@@ -175,6 +175,20 @@ fn cw20_listings(n: usize, rng: &mut Rng, out: &mut Out, run: &mut u64) {
         }),
     };
     exercise(&w, &l, rng, out, run);
+    // an owner that never held a token grants allowances too: its listing is as complete as anybody's
+    let poor = w.user("poor");
+    for s in holders.iter() {
+        w.app.execute_contract(poor.clone(), tok.clone(), &cw20::Cw20ExecuteMsg::IncreaseAllowance { spender: s.to_string(), amount: Uint128::new(1), expires: None }, &[]).unwrap();
+    }
+    let (t5, o5) = (tok.clone(), poor.clone());
+    let l = Listing {
+        name: "cw20.all_allowances.unfunded".into(), rev: false, numeric: false, truth: sorted(holders.iter().map(|a| a.to_string()).collect()), extra_cursors: extra.clone(),
+        fetch: Box::new(move |w, c, lim| {
+            let r: cw20::AllAllowancesResponse = w.smart(&t5, &cw20_base::msg::QueryMsg::AllAllowances { owner: o5.to_string(), start_after: c, limit: lim }).unwrap();
+            r.allowances.into_iter().map(|a| a.spender).collect()
+        }),
+    };
+    exercise(&w, &l, rng, out, run);
     // n owners grant to one spender
     let mut owners: Vec<String> = vec![];
     for (i, o) in holders.iter().enumerate() {
